@@ -11,6 +11,7 @@ import (
 	"sort"
 	"strings"
 	"time"
+	"unicode/utf8"
 
 	gp2p "github.com/leprosus/golang-p2p"
 	apayment "github.com/my-cloud/ruthenium/accessnode/presentation/api/payment"
@@ -190,10 +191,14 @@ func (c *crashCtx) guard(key, what string, payload []byte, f func()) {
 }
 
 func truncate(s string, n int) string {
-	if len(s) > n {
-		return s[:n] + "…"
+	if len(s) <= n {
+		return s
 	}
-	return s
+	// cut on a rune boundary: what is written to the violations file stays valid UTF-8
+	for n > 0 && !utf8.RuneStart(s[n]) {
+		n--
+	}
+	return s[:n] + "…"
 }
 
 func runCrashSuite(seed uint64, n int, out *Out, stats *Stats) {
@@ -356,6 +361,31 @@ func runCrashSuite(seed uint64, n int, out *Out, stats *Stats) {
 				time.Sleep(time.Millisecond)
 				later(what, payload)
 				_ = before
+				// the same list as what a validator answers to the access node's blocks request (progress route):
+				// the whole page, and every tail of it (a page of one or two entries is what the route expects)
+				{
+					snd := backedSender(v)
+					pages := [][]byte{payload}
+					if l, ok := tree.([]interface{}); ok {
+						for cut := len(l) - 1; cut >= 1 && cut >= len(l)-2; cut-- {
+							pages = append(pages, mustJSON(l[cut:]))
+						}
+						if len(l) >= 1 {
+							pages = append(pages, mustJSON([]interface{}{l[len(l)-1], nil}), mustJSON([]interface{}{l[0], nil, l[len(l)-1]}))
+						}
+					}
+					watch := &ScriptWatch{fallback: func() int64 { return w.now }}
+					for _, pg := range pages {
+						pg := pg
+						snd.getBlocks = func(uint64) ([]byte, error) { return pg, nil }
+						c.guard("accessnode:progress-blocks", "access node progress with the validator's blocks answer "+what, pg, func() {
+							ctl := apayment.NewProgressController(snd, set, watch, &CapLogger{})
+							// an output that is not (yet) spendable: the route goes on to the blocks
+							ctl.GetTransactionProgress(httptest.NewRecorder(), httptest.NewRequest("PUT", "/transaction/output/progress", bytes.NewReader(mustJSON(map[string]interface{}{"address": w.wallets[1].Addr, "transaction_id": tx.Id(), "output_index": 7}))))
+						})
+						stats.Ops++
+					}
+				}
 			default:
 				snd := backedSender(v)
 				snd.utxos = func(string) ([]byte, error) { return payload, nil }
